@@ -238,3 +238,242 @@ Section IFloor.
     unfold TI_is_multiple_of, TI_div_floor, TI_mod_floor, TI_div_rem. rewrite Hd, Hr. cbn. auto.
   Qed.
 End IFloor.
+
+(* ================= gcd ================= *)
+
+Lemma odd_pos x : 0 <= x -> Z.odd x = true -> 1 <= x.
+Proof. intros H0 Ho. destruct (Z.eq_dec x 0) as [->|]; [discriminate Ho|lia]. Qed.
+
+Section Gcd.
+  Context (D : deps_gcd).
+
+  Lemma gcd_loop_ok fuel dbg w n : 0 < w -> forall a b btz, wf w n a -> wf w n b ->
+    Z.odd (uval w a) = true -> Z.odd (uval w b) = true ->
+    uval w a * uval w b < 2 ^ Z.of_nat fuel -> 0 <= btz < bits w n ->
+    Z.gcd (uval w a) (uval w b) * 2 ^ btz < Mod w n ->
+    exists r, gcd_loop fuel dbg w a b btz = Some (Ret r) /\ wf w n r /\
+              uval w r = Z.gcd (uval w a) (uval w b) * 2 ^ btz.
+  Proof.
+    intros Hw. induction fuel as [|f IH]; intros a b btz Ha Hb Hoa Hob Hprod Hbtz Hfit.
+    - exfalso. change (2 ^ Z.of_nat 0) with 1 in Hprod.
+      pose proof (uval_bounds w n a ltac:(lia) Ha). pose proof (uval_bounds w n b ltac:(lia) Hb).
+      pose proof (odd_pos (uval w a) ltac:(lia) Hoa). pose proof (odd_pos (uval w b) ltac:(lia) Hob). nia.
+    - (* the ordered case *)
+      assert (Hord : forall a b, wf w n a -> wf w n b -> Z.odd (uval w a) = true -> Z.odd (uval w b) = true ->
+                 uval w a * uval w b < 2 ^ Z.of_nat (S f) -> Z.gcd (uval w a) (uval w b) * 2 ^ btz < Mod w n ->
+                 uval w b <= uval w a ->
+                 exists r, match U_sub dbg w a b with
+                           | Panic => Some Panic
+                           | Ret a1 => if is_zero a1 then fret (shl_internal w b btz)
+                                       else gcd_loop f dbg w (shr_pad_internal w false a1 (trailing_zeros w a1)) b btz
+                           end = Some (Ret r) /\ wf w n r /\ uval w r = Z.gcd (uval w a) (uval w b) * 2 ^ btz).
+      { clear a b Ha Hb Hoa Hob Hprod Hfit. intros a b Ha Hb Hoa Hob Hprod Hfit Hle.
+        pose proof (uval_bounds w n a ltac:(lia) Ha) as Hba. pose proof (uval_bounds w n b ltac:(lia) Hb) as Hbb.
+        pose proof (odd_pos (uval w a) ltac:(lia) Hoa) as Ha1. pose proof (odd_pos (uval w b) ltac:(lia) Hob) as Hb1.
+        destruct (dg_sub D dbg w n a b Hw Ha Hb Hle) as (a1 & Ea1 & Wa1 & Va1). rewrite Ea1.
+        rewrite (is_zero_spec w n a1 ltac:(lia) Wa1), Va1.
+        destruct (Z.eqb_spec (uval w a - uval w b) 0) as [E0|E0].
+        - assert (Eab : uval w a = uval w b) by lia.
+          rewrite Eab, Z.gcd_diag, Z.abs_eq in * by lia.
+          destruct (dg_shl D w n b btz Hw Hb Hbtz) as (Ws & Vs).
+          eexists. split; [reflexivity|]. split; [exact Ws|]. rewrite Vs. apply Z.mod_small.
+          assert (0 < 2 ^ btz) by (apply Z.pow_pos_nonneg; lia). nia.
+        - destruct (dg_tz D w n a1 Hw Wa1 ltac:(lia)) as (Htz & m & Hm & Hmo).
+          set (t := trailing_zeros w a1) in *.
+          destruct (dg_shr D w n a1 t Hw Wa1 Htz) as (Wa2 & Va2).
+          assert (Hpt : 0 < 2 ^ t) by (apply Z.pow_pos_nonneg; lia).
+          assert (Va2' : uval w (shr_pad_internal w false a1 t) = m).
+          { rewrite Va2, Hm, Z.mul_comm, Z.div_mul by lia. reflexivity. }
+          rewrite Va1 in Hm.
+          destruct (gcd_step (uval w a) (uval w b) t m Hoa Hob ltac:(lia) ltac:(lia) ltac:(lia) Hm Hmo) as (Hm0 & Hg & Hhalf).
+          destruct (IH (shr_pad_internal w false a1 t) b btz Wa2 Hb) as (r & Er & Wr & Vr).
+          + rewrite Va2'. exact Hmo.
+          + exact Hob.
+          + rewrite Va2'. rewrite Nat2Z.inj_succ, Z.pow_succ_r in Hprod by lia. lia.
+          + exact Hbtz.
+          + rewrite Va2', Hg. exact Hfit.
+          + exists r. split; [exact Er|]. split; [exact Wr|]. rewrite Vr, Va2', Hg. reflexivity. }
+      cbn [gcd_loop]. rewrite (dg_ucmp D w n a b Hw Ha Hb).
+      destruct (Z.compare_spec (uval w a) (uval w b)) as [E|E|E]; cbn [cmp_lt].
+      + apply Hord; auto; lia.
+      + rewrite (Z.gcd_comm (uval w a)).
+        apply (Hord b a Hb Ha Hob Hoa); [rewrite Z.mul_comm; exact Hprod | rewrite Z.gcd_comm; exact Hfit | lia].
+      + apply Hord; auto; lia.
+  Qed.
+
+  (* gcd_ok: the fuel 2*BITS+2 suffices and the result denotes Z.gcd *)
+  Theorem TU_gcd_ok dbg w n a b : 0 < w -> wf w n a -> wf w n b ->
+    exists r, TU_gcd dbg w a b = Some (Ret r) /\ wf w n r /\ uval w r = Z.gcd (uval w a) (uval w b).
+  Proof.
+    intros Hw Ha Hb.
+    pose proof (uval_bounds w n a ltac:(lia) Ha) as Hba. pose proof (uval_bounds w n b ltac:(lia) Hb) as Hbb.
+    unfold TU_gcd. rewrite (is_zero_spec w n a ltac:(lia) Ha), (is_zero_spec w n b ltac:(lia) Hb).
+    destruct (Z.eqb_spec (uval w a) 0) as [Ea|Ea].
+    { exists b. split; [reflexivity|]. split; [exact Hb|]. rewrite Ea, Z.gcd_0_l, Z.abs_eq by lia. reflexivity. }
+    destruct (Z.eqb_spec (uval w b) 0) as [Eb|Eb].
+    { exists a. split; [reflexivity|]. split; [exact Ha|]. rewrite Eb, Z.gcd_0_r, Z.abs_eq by lia. reflexivity. }
+    destruct (dg_tz D w n a Hw Ha Ea) as (Hi & x & Hx & Hxo).
+    destruct (dg_tz D w n b Hw Hb Eb) as (Hj & y & Hy & Hyo).
+    set (i := trailing_zeros w a) in *. set (j := trailing_zeros w b) in *.
+    destruct (dg_shr D w n a i Hw Ha Hi) as (Wa1 & Va1).
+    destruct (dg_shr D w n b j Hw Hb Hj) as (Wb1 & Vb1).
+    assert (Hpi : 0 < 2 ^ i) by (apply Z.pow_pos_nonneg; lia).
+    assert (Hpj : 0 < 2 ^ j) by (apply Z.pow_pos_nonneg; lia).
+    assert (Va1' : uval w (shr_pad_internal w false a i) = x).
+    { rewrite Va1, Hx, Z.mul_comm, Z.div_mul by lia. reflexivity. }
+    assert (Vb1' : uval w (shr_pad_internal w false b j) = y).
+    { rewrite Vb1, Hy, Z.mul_comm, Z.div_mul by lia. reflexivity. }
+    assert (Hx0 : 0 < x) by nia. assert (Hy0 : 0 < y) by nia.
+    assert (Hg : Z.gcd (uval w a) (uval w b) = 2 ^ Z.min i j * Z.gcd x y).
+    { rewrite Hx, Hy. apply gcd_split_pow2; auto; lia. }
+    assert (Hgle : Z.gcd (uval w a) (uval w b) <= uval w a).
+    { apply Z.divide_pos_le; [lia|apply Z.gcd_divide_l]. }
+    assert (Hbtz : (let '(_, b_tz) := if i <? j then (j, i) else (i, j) in b_tz) = Z.min i j).
+    { destruct (Z.ltb_spec i j); lia. }
+    assert (Hgoal : forall btz, btz = Z.min i j ->
+              exists r, gcd_loop (gcd_fuel w (length a)) dbg w (shr_pad_internal w false a i)
+                          (shr_pad_internal w false b j) btz = Some (Ret r) /\ wf w n r /\
+                        uval w r = Z.gcd (uval w a) (uval w b)).
+    { intros btz ->. rewrite (wf_length _ _ _ Ha).
+      destruct (gcd_loop_ok (gcd_fuel w n) dbg w n Hw _ _ (Z.min i j) Wa1 Wb1) as (r & Er & Wr & Vr).
+      - rewrite Va1'. exact Hxo.
+      - rewrite Vb1'. exact Hyo.
+      - rewrite Va1', Vb1'. unfold gcd_fuel. rewrite Z2Nat.id by (unfold bits; nia).
+        assert (x < Mod w n) by nia. assert (y < Mod w n) by nia.
+        assert (HMM : Mod w n * Mod w n = 2 ^ (2 * bits w n)).
+        { unfold Mod, bits. rewrite <- Z.pow_add_r by nia. f_equal. lia. }
+        assert (2 ^ (2 * bits w n) <= 2 ^ (2 * bits w n + 2)) by (apply Z.pow_le_mono_r; unfold bits; nia).
+        nia.
+      - lia.
+      - rewrite Va1', Vb1', Z.mul_comm, <- Hg. lia.
+      - exists r. split; [exact Er|]. split; [exact Wr|]. rewrite Vr, Va1', Vb1', Z.mul_comm, <- Hg. reflexivity. }
+    destruct (i <? j); apply Hgoal; lia.
+  Qed.
+End Gcd.
+
+(* ================= lcm (unsigned), gcd / lcm (signed) ================= *)
+
+Lemma lcm_nonneg_formula a b : 0 <= a -> 0 <= b -> Z.gcd a b <> 0 -> a / Z.gcd a b * b = Z.lcm a b.
+Proof.
+  intros Ha Hb Hg. unfold Z.lcm.
+  destruct (Z.gcd_divide_l a b) as [x Hx]. destruct (Z.gcd_divide_r a b) as [y Hy].
+  pose proof (Z.gcd_nonneg a b) as Hg0.
+  set (g := Z.gcd a b) in *. clearbody g.
+  assert (Hx0 : 0 <= x) by nia. assert (Hy0 : 0 <= y) by nia.
+  subst a b. rewrite !Z.div_mul by exact Hg.
+  rewrite Z.abs_eq by nia. ring.
+Qed.
+
+Section Lcm.
+  Context (DG : deps_gcd) (DU : deps_udiv) (DM : U_mul_spec).
+
+  Theorem TU_lcm_ok dbg w n a b : 0 < w -> wf w n a -> wf w n b ->
+    Z.lcm (uval w a) (uval w b) < Mod w n ->
+    exists r, TU_lcm dbg w a b = Some (Ret r) /\ wf w n r /\ uval w r = Z.lcm (uval w a) (uval w b).
+  Proof.
+    intros Hw Ha Hb Hfit.
+    pose proof (uval_bounds w n a ltac:(lia) Ha) as Hba. pose proof (uval_bounds w n b ltac:(lia) Hb) as Hbb.
+    unfold TU_lcm. rewrite (is_zero_spec w n a ltac:(lia) Ha), (is_zero_spec w n b ltac:(lia) Hb).
+    destruct (Z.eqb_spec (uval w a) 0) as [Ea|Ea].
+    { cbn [orb]. rewrite (wf_length _ _ _ Ha). exists (ZERO n). split; [reflexivity|]. split; [apply wf_ZERO; lia|].
+      rewrite uval_ZERO, Ea, Z.lcm_0_l. reflexivity. }
+    destruct (Z.eqb_spec (uval w b) 0) as [Eb|Eb].
+    { cbn [orb]. rewrite (wf_length _ _ _ Ha). exists (ZERO n). split; [reflexivity|]. split; [apply wf_ZERO; lia|].
+      rewrite uval_ZERO, Eb, Z.lcm_0_r. reflexivity. }
+    cbn [orb].
+    destruct (TU_gcd_ok DG dbg w n a b Hw Ha Hb) as (g & Eg & Wg & Vg). rewrite Eg. cbn [fbind].
+    assert (Hg0 : uval w g <> 0).
+    { rewrite Vg. intros E. apply Z.gcd_eq_0_l in E. contradiction. }
+    unfold TU_div_floor. destruct (U_div_ok DU w n a g Hw Ha Wg Hg0) as (q & Eq & Wq & Vq). rewrite Eq. cbn [obind].
+    assert (Hl : uval w q * uval w b = Z.lcm (uval w a) (uval w b)).
+    { rewrite Vq, Vg. apply lcm_nonneg_formula; lia. }
+    destruct (DM dbg w n q b Hw Wq Hb ltac:(lia)) as (r & Er & Wr & Vr).
+    unfold flift. rewrite Er. exists r. split; [reflexivity|]. split; [exact Wr|]. lia.
+  Qed.
+End Lcm.
+
+Section SignedGcd.
+  Context (DG : deps_gcd) (DS : deps_signed).
+
+  (* the signed gcd is the non-negative gcd whenever that is representable (it is not for
+     gcd(MIN, MIN) = gcd(MIN, 0) = 2^(BITS-1)) *)
+  Theorem TI_gcd_ok dbg w n a b : 0 < w -> (0 < n)%nat -> wf w n a -> wf w n b ->
+    Z.gcd (sval w a) (sval w b) < Mod w n / 2 ->
+    exists r, TI_gcd dbg w a b = Some (Ret r) /\ wf w n r /\ sval w r = Z.gcd (sval w a) (sval w b).
+  Proof.
+    intros Hw Hn Ha Hb Hrep.
+    destruct (ds_uabs DS w n a Hw Hn Ha) as (Wa' & Va'). destruct (ds_uabs DS w n b Hw Hn Hb) as (Wb' & Vb').
+    unfold TI_gcd.
+    destruct (TU_gcd_ok DG dbg w n _ _ Hw Wa' Wb') as (g & Eg & Wg & Vg). rewrite Eg. cbn [fbind].
+    rewrite Va', Vb', Z.gcd_abs_l, Z.gcd_abs_r in Vg.
+    pose proof (Z.gcd_nonneg (sval w a) (sval w b)) as Hg0.
+    pose proof (Mod_half_pos w n Hw Hn) as HH.
+    assert (Sg : sval w g = Z.gcd (sval w a) (sval w b)).
+    { rewrite (sval_of_small w n g Hw Hn Wg); lia. }
+    destruct (ds_abs DS dbg w n g Hw Hn Wg ltac:(lia)) as (r & Er & Wr & Vr).
+    unfold flift. rewrite Er. exists r. split; [reflexivity|]. split; [exact Wr|]. rewrite Vr, Sg. apply Z.abs_eq. exact Hg0.
+  Qed.
+End SignedGcd.
+
+Lemma sval_zero_iff w n a : 0 < w -> (0 < n)%nat -> wf w n a -> sval w a = 0 <-> uval w a = 0.
+Proof.
+  intros Hw Hn Ha. pose proof (uval_bounds w n a ltac:(lia) Ha) as Hb. pose proof (Mod_half_pos w n Hw Hn) as HH.
+  pose proof (Mod_even w n Hw Hn) as He.
+  unfold sval, to_signed. rewrite (wf_length _ _ _ Ha). destruct (Z.ltb_spec (uval w a) (Mod w n / 2)); lia.
+Qed.
+
+Lemma lcm_formula a b : Z.gcd a b <> 0 -> Z.abs (a / Z.gcd a b * b) = Z.lcm a b.
+Proof.
+  intros Hg. unfold Z.lcm.
+  destruct (Z.gcd_divide_l a b) as [x Hx]. destruct (Z.gcd_divide_r a b) as [y Hy].
+  set (g := Z.gcd a b) in *. clearbody g.
+  subst a b. rewrite !Z.div_mul by exact Hg. f_equal. ring.
+Qed.
+
+Section SignedLcm.
+  Context (DG : deps_gcd) (DS : deps_signed) (DF : deps_floor) (DM : I_mul_spec).
+
+  Theorem TI_lcm_ok dbg w n a b : 0 < w -> (0 < n)%nat -> wf w n a -> wf w n b ->
+    Z.lcm (sval w a) (sval w b) < Mod w n / 2 ->
+    exists r, TI_lcm dbg w a b = Some (Ret r) /\ wf w n r /\ sval w r = Z.lcm (sval w a) (sval w b).
+  Proof.
+    intros Hw Hn Ha Hb Hfit.
+    pose proof (Mod_half_pos w n Hw Hn) as HH.
+    pose proof (sval_range w n a Hw Hn Ha) as Hra. pose proof (sval_range w n b Hw Hn Hb) as Hrb.
+    unfold TI_lcm. rewrite (is_zero_spec w n a ltac:(lia) Ha), (is_zero_spec w n b ltac:(lia) Hb).
+    assert (Hz : sval w (ZERO n) = 0).
+    { rewrite (sval_of_small w n); try assumption; [apply uval_ZERO|apply wf_ZERO; lia|rewrite uval_ZERO; lia]. }
+    destruct (Z.eqb_spec (uval w a) 0) as [Ea|Ea].
+    { cbn [orb]. rewrite (wf_length _ _ _ Ha). exists (ZERO n). split; [reflexivity|]. split; [apply wf_ZERO; lia|].
+      rewrite (proj2 (sval_zero_iff w n a Hw Hn Ha) Ea), Z.lcm_0_l. exact Hz. }
+    destruct (Z.eqb_spec (uval w b) 0) as [Eb|Eb].
+    { cbn [orb]. rewrite (wf_length _ _ _ Ha). exists (ZERO n). split; [reflexivity|]. split; [apply wf_ZERO; lia|].
+      rewrite (proj2 (sval_zero_iff w n b Hw Hn Hb) Eb), Z.lcm_0_r. exact Hz. }
+    cbn [orb].
+    assert (Sa : sval w a <> 0) by (rewrite (sval_zero_iff w n a Hw Hn Ha); exact Ea).
+    assert (Sb : sval w b <> 0) by (rewrite (sval_zero_iff w n b Hw Hn Hb); exact Eb).
+    set (g0 := Z.gcd (sval w a) (sval w b)).
+    assert (Hg0 : 0 < g0).
+    { pose proof (Z.gcd_nonneg (sval w a) (sval w b)). unfold g0.
+      destruct (Z.eq_dec (Z.gcd (sval w a) (sval w b)) 0) as [E|]; [apply Z.gcd_eq_0_l in E; contradiction|lia]. }
+    pose proof (lcm_formula (sval w a) (sval w b) ltac:(fold g0; lia)) as Hlf. fold g0 in Hlf.
+    (* the gcd divides the lcm, which is positive, so it is representable too *)
+    assert (Hgl : g0 <= Z.lcm (sval w a) (sval w b)).
+    { apply Z.divide_pos_le.
+      - pose proof (Z.lcm_nonneg (sval w a) (sval w b)).
+        destruct (Z.eq_dec (Z.lcm (sval w a) (sval w b)) 0) as [E|]; [|lia].
+        apply Z.lcm_eq_0 in E. tauto.
+      - apply Z.divide_trans with (sval w a); [apply Z.gcd_divide_l|apply Z.divide_lcm_l]. }
+    destruct (TI_gcd_ok DG DS dbg w n a b Hw Hn Ha Hb ltac:(fold g0; lia)) as (g & Eg & Wg & Vg).
+    fold g0 in Vg. rewrite Eg. cbn [fbind].
+    destruct (TI_floor_ok DF dbg w n a g Hw Hn Ha Wg ltac:(lia) ltac:(lia)) as ((q & Eq & Wq & Vq) & _).
+    rewrite Eq. cbn [obind]. rewrite Vg in Vq.
+    destruct (DM dbg w n q b Hw Hn Wq Hb) as (p & Ep & Wp & Vp).
+    { rewrite Vq. lia. }
+    rewrite Ep. cbn [obind].
+    destruct (ds_abs DS dbg w n p Hw Hn Wp) as (r & Er & Wr & Vr).
+    { rewrite Vp, Vq. lia. }
+    unfold flift. rewrite Er. exists r. split; [reflexivity|]. split; [exact Wr|].
+    rewrite Vr, Vp, Vq. exact Hlf.
+  Qed.
+End SignedLcm.
